@@ -719,6 +719,34 @@ def _native_tables(tier="quick", seed=0):
                 break
         if bad:
             break
+    # a merge whose corner cells lie in different tables is refused (ValueError) and changes neither table: two tables on one slide,
+    # the k-th table of two slides, the same position in two decks, a table and its copy
+    if not bad:
+        import copy
+
+        prs = Presentation()
+        s1 = prs.slides.add_slide(prs.slide_layouts[6])
+        s2 = prs.slides.add_slide(prs.slide_layouts[6])
+        prs_b = Presentation()
+        s3 = prs_b.slides.add_slide(prs_b.slide_layouts[6])
+        mk = lambda sl: sl.shapes.add_table(3, 3, Emu(0), Emu(0), Emu(3000), Emu(2100))
+        ga, gb, gc, gd = mk(s1), mk(s1), mk(s2), mk(s3)
+        for sl_ in (s2, s3):
+            mk(sl_), mk(sl_)  # the same arrangement of shapes on every slide: position in the tree does not tell tables apart
+        ge_el = copy.deepcopy(ga._element)
+        s1.shapes._spTree.append(ge_el)
+        ge = [x for x in s1.shapes if x._element is ge_el][0]
+        flags = lambda t: [(c_._tc.gridSpan, c_._tc.rowSpan, c_._tc.hMerge, c_._tc.vMerge) for c_ in t.iter_cells()]
+        for what, other in (("another table of the same slide", gb), ("the first table of another slide", gc), ("the first table of another deck", gd), ("a copy of the table on the same slide", ge)):
+            evals += 1
+            before = (flags(ga.table), flags(other.table))
+            try:
+                ga.table.cell(0, 0).merge(other.table.cell(1, 1))
+                bad = bad or ("refusal", "merge of cell (0, 0) with cell (1, 1) of %s was accepted" % what)
+            except ValueError:
+                pass
+            if (flags(ga.table), flags(other.table)) != before:
+                bad = bad or ("refusal", "merge with a cell of %s changed a table" % what)
     ob = {"name": "C14.native_tables", "base": "C14.native_tables", "kind": "bounded", "status": "refuted" if bad else "discharged", "backend": "native", "time": 0, "path": 0}
     if bad:
         ob["replay"] = {"confirmed": True, "witness_class": "table-" + bad[0], "detail": bad[1]}
